@@ -48,6 +48,8 @@ def run_corr(ctx, ncases, tag, workers=8):
         for v in s["violations"]:
             v["worker_seed"] = ctx.seed * 1000 + k
             summ["violations"].append(v)
+        if len(summ.setdefault("samples", [])) < 2:
+            summ["samples"] += s.get("samples", [])[:1]
         for name, o in s.get("oracles", {}).items():
             t = summ["oracles"].setdefault(name, dict(applied=0, violated=0))
             t["applied"] += o["applied"]
@@ -119,8 +121,7 @@ def check(ctx, pid, theorems, props_module, nquick=144, nthorough=2400, extra_mo
              "IntegratorVelocityVerlet + IntegratorScalar/Vector, dyadic data; every field of every particle after every step compared EXACTLY with the Lean "
              "model while inside the exact horizon; a scenario counts when it ran without reflector hits; distinct by construction (one PRNG stream per worker)",
         histogram=dict(summ.get("histogram", {}), oracles=summ["oracles"], disagreements_attributed_to_other_properties=len(others)),
-        samples=[dict(first_lines_of_a_model_input=(summ["disagreements"][0]["model_input"][:6] if summ["disagreements"] else None),
-                      modules=summ.get("histogram", {}).get("modules"))]))
+        samples=(summ.get("samples") or [dict(modules=summ.get("histogram", {}).get("modules"))])))
     if not all(o[1] for o in ctx.obligations):
         failing = [o[0] for o in ctx.obligations if not o[1]]
         if not viol and ok and os.path.exists(common.symdrv()):
